@@ -1204,7 +1204,10 @@ def run_masked_pair(rng, ctx, tree, kind, res, feats, desc_out):
             viol(res, 'transformer:rebuild-rewraps-literal:StopStmt.text',
                  f'rebuilding a STOP statement wraps its code in one more IntrinsicLiteral each time: {diff}', witness)
         elif ref.empty_inner and dejunk(actual) != expected:
-            viol(res, f'masked:empty-inner-body-dropped:{_inner_class(diff)}', str(diff), witness)
+            cls = _inner_class(diff)
+            if cls == 'inner' and _scoped_on_path(diff):
+                cls = 'in-scoped-node'
+            viol(res, f'masked:empty-inner-body-dropped:{cls}', str(diff), witness)
         elif dejunk(actual) == expected:
             viol(res, f'masked:tuples-left-in-scoped-body:{T.__name__}',
                  f'body of an in-place updated scoped node contains (empty or nested) tuples instead of nodes: {diff}',
